@@ -384,6 +384,29 @@ func propC09(j *Job) {
 			}
 		}
 	}
+	// several readers on one stream / a read deadline that outlives the association
+	for bi, b := range bases {
+		if bi == 2 {
+			continue
+		}
+		for _, kind := range []string{"multi", "stale", "expired"} {
+			for _, x := range []string{"closeB", "abortB", "abortA", "readerrB", "conncloseB", "closeA"} {
+				for _, when := range []time.Duration{50 * time.Millisecond, 300 * time.Millisecond} {
+					if !j.Thorough() && when != 50*time.Millisecond && bi > 0 {
+						continue
+					}
+					d := 1
+					if j.Thorough() {
+						d = 2
+					}
+					j.Explore(fmt.Sprintf("R/%s/%s/%s/at%v", b.name, kind, x, when), readersScenario(b.a, b.b, kind, x, when), Budget{D: d}, nil)
+					if j.capped() {
+						return
+					}
+				}
+			}
+		}
+	}
 	// crash points at exact scheduling steps (inside handlers, between two lock acquisitions)
 	for bi, b := range bases {
 		if bi > 0 && !j.Thorough() {
@@ -405,5 +428,115 @@ func propC09(j *Job) {
 				}
 			}
 		}
+	}
+}
+
+// readersScenario: established association, stream 1 open on both sides.  On side B either
+// (kind "multi") three goroutines are blocked in ReadSCTP on the same stream, or (kind
+// "stale") a read deadline is armed while nobody reads and expires only after the
+// termination.  Termination event x; every reader must come back with the closure.
+func readersScenario(a, b epCfg, kind, x string, when time.Duration) *Scenario {
+	return &Scenario{
+		Name:    "readers",
+		Horizon: 120 * time.Second,
+		Body: func(m *Sim) {
+			if !m.Connect(a, b) {
+				m.Failf("connect", "handshake failed: %v %v", m.Err[0], m.Err[1])
+				m.closeFailedTransports()
+				m.CloseBoth()
+				return
+			}
+			sa, _ := m.As[0].OpenStream(1, PayloadTypeWebRTCBinary)
+			sb, _ := m.As[1].OpenStream(1, PayloadTypeWebRTCBinary)
+			m.streamsSeen = append(m.streamsSeen, sa, sb)
+			mu := &m.mu
+			errs := map[string]error{}
+			var ts []*vsched.Thread
+			loop := func(name string, s *Stream) {
+				buf := make([]byte, 2000)
+				for {
+					_, _, err := s.ReadSCTP(buf)
+					if err == nil {
+						continue
+					}
+					if errors.Is(err, ErrReadDeadlineExceeded) {
+						// what a deadline-aware application does: extend and read on
+						_ = s.SetReadDeadline(time.Time{})
+						continue
+					}
+					mu.Lock()
+					errs[name] = err
+					mu.Unlock()
+					return
+				}
+			}
+			switch kind {
+			case "multi":
+				for i := 0; i < 3; i++ {
+					name := fmt.Sprintf("rd%d", i)
+					ts = append(ts, m.Go(name, func() { loop(name, sb) }))
+				}
+			case "expired":
+				// the deadline expires (idle stream) shortly before the termination
+				_ = sb.SetReadDeadline(time.Now().Add(when - 20*time.Millisecond))
+				ts = append(ts, m.Go("late-reader", func() {
+					m.Sleep(when + 900*time.Millisecond)
+					loop("late-reader", sb)
+				}))
+			case "stale":
+				_ = sb.SetReadDeadline(time.Now().Add(when + 400*time.Millisecond))
+				ts = append(ts, m.Go("late-reader", func() {
+					m.Sleep(when + 900*time.Millisecond)
+					loop("late-reader", sb)
+				}))
+			}
+			_, _ = sa.WriteSCTP(payload(1, 0, 30), PayloadTypeWebRTCBinary)
+			m.Sleep(when)
+			m.inject(x)
+			side := sideOf(x)
+			// the ABORT / closure reaches side B within a link delay or through the transport
+			if side == 0 && (strings.HasPrefix(x, "close") || strings.HasPrefix(x, "conn") || strings.HasSuffix(x, "errA")) {
+				// A went away silently: B learns it when its own transport is closed
+				m.Sleep(200 * time.Millisecond)
+				(&wconn{w: m.W, id: 1}).Close()
+			}
+			ok := m.WaitUntil("readers-back", 5*time.Second, func() bool {
+				for _, t := range ts {
+					if !t.Done {
+						return false
+					}
+				}
+				return true
+			})
+			if !ok {
+				var stuck []string
+				for _, t := range ts {
+					if !t.Done {
+						stuck = append(stuck, t.Name)
+					}
+				}
+				m.Failf("teardown.blocked", "%s readers, %s: 5 s after the association on their side terminated these readers have not seen the closure: %v", kind, x, stuck)
+			}
+			mu.Lock()
+			for name, err := range errs {
+				if err == nil || errors.Is(err, ErrReadDeadlineExceeded) {
+					m.Failf("teardown.error", "%s returned %v instead of the closure", name, err)
+				}
+			}
+			mu.Unlock()
+			m.CloseBoth()
+			(&wconn{w: m.W, id: 0}).Close()
+			(&wconn{w: m.W, id: 1}).Close()
+			m.WaitUntil("all-back", 2*time.Second, func() bool {
+				for _, t := range ts {
+					if !t.Done {
+						return false
+					}
+				}
+				return true
+			})
+			m.Observe("%s %s ok=%v", kind, x, ok)
+		},
+		Final: func(m *Sim, x *Exec) { generalVerdicts(m, x, true) },
 	}
 }
